@@ -7,6 +7,7 @@ import Driver.CL
 import Driver.ShareClass
 import Driver.Route
 import Driver.Lockup
+import Driver.IbcSwap
 open Sunrise.Driver
 
 def evalLine (line : String) : String :=
@@ -33,6 +34,7 @@ def suites : List (String × (IO.FS.Stream → IO.FS.Stream → IO Unit)) := [
   ("convert", ConvertSuite.run),
   ("route", RouteSuite.run)
   ("lockup", LockupSuite.run)
+  ("ibc", IbcSuite.run)
 ]
 
 def main : IO Unit := do
